@@ -30,6 +30,9 @@ type Engine struct {
 	needBand    bool
 	needStrLess bool
 	needVarint  bool
+	needApplyRB bool
+	needUnicode bool
+	applies     map[string]string // function key -> spec function giving its value as a predicate
 	needDecval  bool
 	typeIDs     map[string]int
 	typeNames   []string
@@ -45,6 +48,7 @@ type Engine struct {
 	recAxioms   map[string]string
 	ufDecls     map[string]string    // other uninterpreted functions
 	sentinel    map[*ssa.Global]int
+	applyAxioms []string
 }
 
 func loadEngine(repo string, contractFiles []string) (*Engine, error) {
@@ -410,9 +414,33 @@ func (e *Engine) srcText(pos token.Pos, in ssa.Instruction) string {
 	return strings.Join(strings.Fields(line[start:end]), "")
 }
 
+// buildApplyAxioms links the function values of functions with an `applies` clause to their spec predicate.
+func (e *Engine) buildApplyAxioms() {
+	e.applyAxioms = nil
+	for _, key := range e.cs.Order {
+		fc := e.cs.Funcs[key]
+		fn := e.funcs[key]
+		if fc.Applies == "" || fn == nil {
+			continue
+		}
+		c := e.newFnCtx(fn, &FuncContract{Key: "axiom"})
+		func() {
+			defer func() { recover() }()
+			env := &Env{c: c, st: &State{cells: map[*ssa.Alloc]Val{}, heap: map[string]string{}, reach: "true"}, vars: map[string]Val{"r": VInt{"r"}}, noUnfold: true}
+			env.old = env.st
+			t := env.eval(ECall{Fn: fc.Applies, Args: []Expr{EIdent{"r"}}}).(VBool).T
+			lhs := app("applyRB", fmt.Sprint(e.funcID(fn)), "r")
+			e.applyAxioms = append(e.applyAxioms, fmt.Sprintf("(assert (forall ((r Int)) (! (= %s %s) :pattern (%s))))", lhs, t, lhs))
+		}()
+	}
+}
+
 // prelude renders the global declarations used by every query.
 func (e *Engine) prelude() string {
 	var b strings.Builder
+	if e.needApplyRB {
+		e.buildApplyAxioms()
+	}
 	for i, s := range e.lits {
 		n := fmt.Sprintf("lit!%d", i)
 		fmt.Fprintf(&b, "(declare-fun %s () %s)\n", n, sAI)
@@ -430,6 +458,17 @@ func (e *Engine) prelude() string {
 	b.WriteString("(declare-fun rid (Int Int) Int)\n")
 	fmt.Fprintf(&b, "(declare-fun rdS (Int) %s)\n", sAI)
 	b.WriteString("(assert (forall ((r Int) (k Int)) (! (and (<= 0 (select (rdS r) k)) (<= (select (rdS r) k) 255)) :pattern ((select (rdS r) k)))))\n")
+	if e.needUnicode {
+		b.WriteString("(declare-fun ULetter (Int) Bool)\n(declare-fun UNumber (Int) Bool)\n")
+		b.WriteString("(assert (forall ((r Int)) (! (=> (< r 128) (= (ULetter r) (or (and (<= 65 r) (<= r 90)) (and (<= 97 r) (<= r 122))))) :pattern ((ULetter r)))))\n")
+		b.WriteString("(assert (forall ((r Int)) (! (=> (< r 128) (= (UNumber r) (and (<= 48 r) (<= r 57)))) :pattern ((UNumber r)))))\n")
+	}
+	if e.needApplyRB {
+		b.WriteString("(declare-fun applyRB (Int Int) Bool)\n")
+		for _, ax := range e.applyAxioms {
+			b.WriteString(ax + "\n")
+		}
+	}
 	if e.needVarint {
 		// little-endian base-128 value of the n-byte varint at a[o..]
 		var terms []string
